@@ -82,5 +82,7 @@ if __name__ == "__main__":
     for sid in ids:
         meta = json.load(open(os.path.join(SEEDED, sid, "meta.json")))
         props = [meta["property"]] if "--own-only" in sys.argv else claimed()
+        if "--no-c01" in sys.argv:
+            props = [p for p in props if p != "C01" or meta["property"] == "C01"]
         evaluate(sid, props)
     summary()
